@@ -345,7 +345,7 @@ func (c *Ctx) checkFrame(st *State, fr *Frame) {
 			continue
 		}
 		r := BoundVar("r", IntSort)
-		conds := []*Term{Cmp("<=", IntC(0), r, true), Cmp("<", r, c.alloc0, true)}
+		conds := []*Term{Cmp("<=", IntC(1), r, true), Cmp("<", r, c.alloc0, true)}
 		for _, l := range locs {
 			if l.kind != "heap" {
 				continue
